@@ -248,7 +248,7 @@ func c02run(d *c02desc) c02result {
 			num := uint64(len(ruleNo) + 1)
 			ruleNo[name] = num
 			c := ci
-			rule := &engine.Rule{Name: name, KindMatch: []string{kind}, Priority: ri,
+			rule := &engine.Rule{Name: name, KindMatch: []string{kind}, ScopeMatch: []string{"c02"}, Priority: ri,
 				Action: func(p engine.Processor, m engine.Monitor, e *engine.Event, tid uint64) error {
 					cc := cas[c]
 					cc.mu.Lock()
@@ -716,7 +716,7 @@ func mustJSON(v interface{}) []byte { b, _ := json.Marshal(v); return b }
 
 func runC02(c *Ctx) error {
 	c.Rule = "cascade shapes generated from the seed: 1-2 rules per event, fan-out <= 4 per event, depth <= 4, a child is a skipped (non-triggering) event with probability 1/5, a rule fails with probability 1/4 (any position), 1-3 cascades in flight (AddEventAndWait, or AddEvent + finish handler with probability 1/4; root event skipped with probability 1/12), workers from {1,2,3,4,8,16}; controlled runs delay goroutines at seed-chosen hook points (always between the zero crossing and the post), free runs do not; ECAL runs build the same shapes as sinks and observe addEventAndWait's result; a fixed corpus first; non-trivial = more than one rule action; distinct by (mode, seed)"
-	c.BeginCases("From Ecal Require Import Run.RunC02.", "case", 40)
+	c.BeginCases("From Coq Require Import List.\nImport ListNotations.\nFrom Ecal Require Import Model.Cascade Run.RunC02.", "case", 30)
 
 	if os.Getenv("C02_CHILD") == "" && c.Replay == "" {
 		// run the sweep in a child process: a panic on a worker goroutine must not kill the check
